@@ -126,7 +126,7 @@ def run(tier, v):
         v.subspace("%s: every rename out of TMPDIR fails with EXDEV + fail/short on every create / write / rename of new content" % sc.name, nx,
                    exhaustive=not capped)
     # unusual temp-directory settings, no injection: the run either updates every file or says it failed
-    forms = ["nonexistent", "file", "relative", "trailing-slash", "non-utf8"]
+    forms = ["nonexistent", "file", "relative", "trailing-slash", "non-utf8", "empty"]
     for n in ["S1", "S2", "S3"]:
         for form in forms:
             sc = scenarios.ALL[n]()
